@@ -222,11 +222,22 @@ JOB = {job}
 MODEL = {model}
 KIND = {kind!r}
 WANT = {want!r}
-sys.exit(wrun.replay(JOB, MODEL, KIND, WANT))
+HISTORY = {history}
+sys.exit(wrun.replay(JOB, MODEL, KIND, WANT, HISTORY))
 '''
 
 
-def replay(job, model, kind, want):
+def replay(job, model, kind, want, history=()):
+    # the scenarios the finding worker had executed before this one, repeated concretely first (their outcome is ignored)
+    for hj in history:
+        hj = list(hj)
+        hj[3] = _tuplify(hj[3])
+        for k in [kind] if kind else ["BufferNumpy"]:
+            try:
+                with_timeout(run_conc, 60, hj, None, k)
+            except BaseException as ex:  # noqa
+                if not isinstance(ex, (Exception, JobTimeout)):
+                    raise
     job = list(job)
     job[3] = _tuplify(job[3])
     kinds = [kind] if kind else ["BufferNumpy", "BufferByteArray"]
@@ -580,44 +591,50 @@ def main(pid):
     if not jobs:
         rep.harness_error("empty job plan")
         return rep.finish()
-    results = run_parallel(run_sym, jobs, fallback=lambda job: _timeout_result(job, "no result before the check's deadline (worker lost?)"))
+    hist = []
+    results = run_parallel(run_sym, jobs, fallback=lambda job: _timeout_result(job, "no result before the check's deadline (worker lost?)"), histories=hist)
     slow = sorted(results, key=lambda r: -r["wall"])[:3]
     for r in results[:: max(1, len(results) // 6)][:6]:
         j = r["job"]
         rep.samples.append({"case": f"scenario {j[1]} on type {j[2]}", "value_sample": j[4], "placement_and_scenario": j[5], "feasible_paths(placement classes)": r["paths"], "obligations": r["obligations"], "discharged": r["discharged"], "solver_queries": r["queries"]})
-    for res in results:
+    for res, prior in zip(results, hist):
         rep.add_engine_result(res)
         job = res["job"]
         for cex in res["cexs"]:
             sig = f"{job[1]}:{norm_what(cex['obligation'])}:{shape_class(job[3])}"
             desc = f"{job[2]} [{json.dumps(job[5], default=str)} {json.dumps(job[4])}]: {cex['obligation']} with placement {cex['model']}"
             kind = job[5].get("kind", "BufferNumpy")
-            rep.candidate(sig, desc, REPLAY.format(job=repr(job), model=repr(cex["model"]), kind=kind, want=norm_what(cex["obligation"])))
+            fmt = dict(job=repr(job), model=repr(cex["model"]), kind=kind, want=norm_what(cex["obligation"]))
+            rep.candidate(sig, desc, REPLAY.format(history="[]", **fmt), history_text=REPLAY.format(history=repr([jobs[i] for i in prior]), **fmt) if prior else None)
     # mode P: the planners/writers/readers on symbolic dimensions, sizes, indices and string lengths
     from checks import pmode
 
     pjobs = pmode.jobs(pid, tr)
     if pjobs:
-        pres = run_parallel(pmode.dispatch, pjobs)
-        for (kind, cfg), res in zip(pjobs, pres):
+        phist = []
+        pres = run_parallel(pmode.dispatch, pjobs, histories=phist)
+        for (kind, cfg), res, prior in zip(pjobs, pres, phist):
             rep.add_engine_result(res)
             for cex in res["cexs"]:
                 sig = f"P-{kind}:{norm_what(cex['obligation'])}"
-                rep.candidate(sig, f"{res['name']}: {cex['obligation']} with {json.dumps(cex.get('detail'), default=str)}", pmode.REPLAY.format(kind=kind, cfg=tuple(cfg), detail=cex.get("detail")))
+                fmt = dict(kind=kind, cfg=tuple(cfg), detail=cex.get("detail"))
+                rep.candidate(sig, f"{res['name']}: {cex['obligation']} with {json.dumps(cex.get('detail'), default=str)}", pmode.REPLAY.format(history="()", **fmt), history_text=pmode.REPLAY.format(history=repr([(pjobs[i][0], tuple(pjobs[i][1])) for i in prior]), **fmt) if prior else None)
         rep.extra["mode_P_harnesses"] = len(pjobs)
         for fn in (xo_array_fns()):
             rep.add_function(fn)
     # validation of the storage model (S9) and of the harness: the same scenarios, concretely, on both real buffer kinds
     step = 1 if tr == "thorough" else 2
     vjobs = [(j, k) for i, j in enumerate(jobs) if i % step == 0 for k in j[5].get("kinds", ("BufferNumpy", "BufferByteArray"))]
-    vres = run_parallel(_conc_job, vjobs)
+    vhist = []
+    vres = run_parallel(_conc_job, vjobs, histories=vhist)
     nval = 0
-    for (job, kind), (fails, unreachable) in zip(vjobs, vres):
+    for (job, kind), (fails, unreachable), prior in zip(vjobs, vres, vhist):
         nval += 1
         for w, k in fails:
             sig = f"{job[1]}:{norm_what(w)}:{shape_class(job[3])}"
             desc = f"{job[2]} [{json.dumps(job[5], default=str)} {json.dumps(job[4])}] on a real {k}: {w}"
-            rep.candidate(sig, desc, REPLAY.format(job=repr(list(job)), model=repr({}), kind=k, want=norm_what(w)))
+            fmt = dict(job=repr(list(job)), model=repr({}), kind=k, want=norm_what(w))
+            rep.candidate(sig, desc, REPLAY.format(history="[]", **fmt), history_text=REPLAY.format(history=repr([list(vjobs[i][0]) for i in prior]), **fmt) if prior else None)
     rep.validated += nval
     rep.extra["rule"] = (
         "one evaluation = one proof obligation (path condition /\\ negated goal) decided by z3 or, for value comparisons, by evaluating the concrete read-back on that path; "
